@@ -287,11 +287,40 @@ class Ctx:
 
 
 def generic_replay(ctx, path):
+    """re-run the recorded failing input against /repo's current tree: exit 1 + VIOLATION if it still fails, 0 if it
+    no longer does.  Returns None when the replay file names no concrete input (a broken obligation or correspondence):
+    the caller then re-runs the whole check."""
+    if not os.path.exists(path):
+        print(f'no such replay file: {path}')
+        return 2
     r = json.load(open(path))
-    print(json.dumps(r, indent=1)[:4000])
+    print(json.dumps(r, indent=1)[:3000])
     cmd = r.get('replay', {}).get('cmd') if isinstance(r.get('replay'), dict) else None
-    if cmd:
-        rc, out, err, _ = sh(cmd, cwd=VERIF, env=GOENV, timeout=1200)
-        print(out[-4000:], err[-2000:])
-        return rc
+    if not cmd:
+        return None
+    ok, msg = build_tools()
+    if not ok:
+        print(msg)
+        print(f'VIOLATION property={ctx.id} replay={path} no-failing-input-found')
+        return 1
+    rc, out, err, _ = sh(cmd, cwd=VERIF, env=GOENV, timeout=1800)
+    print(out[-3000:], err[-1500:])
+    failing = rc != 0
+    for line in reversed(out.strip().splitlines()):
+        if line.startswith('{'):
+            try:
+                res = json.loads(line)
+            except Exception:
+                break
+            for key in ('failures', 'violations', 'roundtrip_failures', 'name_failures', 'load_panics', 'problems'):
+                if res.get(key):
+                    failing = True
+            for v in res.values():
+                if isinstance(v, dict) and (v.get('failures') or v.get('violations')):
+                    failing = True
+            break
+    if failing:
+        print(f'VIOLATION property={ctx.id} replay={path}')
+        return 1
+    print('the recorded input no longer fails on the current tree')
     return 0
